@@ -275,7 +275,9 @@ theorem hstep_inv {h : HS} (hi : HInv h) (op : HOp) (hwf : op.WF) : HInv (hstep 
   | assign s r => exact hassign_inv hi s r
   | get s => exact hget_inv hi s
   | edit r e => exact hedit_inv hi r e
-  | reload => exact copySlot_inv (copySlot_inv hi .wfIn) .wfOut
+  | reload =>
+    have := copySlot_inv (copySlot_inv hi .wfIn) .wfOut
+    exact ⟨this.objs, this.stored, this.noAlias⟩
   | base op =>
     simp only [hstep]
     split
